@@ -69,6 +69,8 @@ inductive Kind where
   | acmeRead
   /-- `acme.DB.CreateCertificate` -/
   | acmeStoreCert
+  /-- second write of `acme.DB.CreateCertificate`: the serial → certificate id index -/
+  | acmeIndex
   /-- `acme.DB.UpdateOrder` (status valid, certificate id) -/
   | acmeUpdateOrder
   deriving DecidableEq, Repr
@@ -188,6 +190,9 @@ def exec (e : Env) (s : St) : Kind → R
     | .ok => .next { r.2 with d := { r.2.d with acmeCerts := r.2.d.acmeCerts + 1 } }
     | .timeout => .abort { r.2 with d := { r.2.d with acmeCerts := r.2.d.acmeCerts + 1 } }
     | _ => .abort r.2
+  | .acmeIndex =>
+    let r := call e s .acmeIndex
+    if r.1 = .ok then .next r.2 else .abort r.2
   | .acmeUpdateOrder =>
     let r := call e s .acmeUpdateOrder
     match r.1 with
@@ -244,6 +249,11 @@ def revokeMTLSSteps : List Kind := [.readData, .casRevoke, .storeRev]
 /-- `Revoke` in the SSH method: token parsing; `db.RevokeSSH`. -/
 def revokeSSHSteps : List Kind := [.check, .storeRev]
 
+/-- The body of `Revoke` in source order (the three request paths are sub-sequences of it:
+    `revoke_paths_in_source_order` in Props/C17). -/
+def revokeSourceOrder : List Kind :=
+  [.readCert, .check, .readData, .storeRev, .readCert, .casRevoke, .storeRev]
+
 /-- `signSSH`: option validators; enriching webhooks; template, modifiers, policy;
     authorizing webhooks; sign; certificate validators; store. -/
 def signSSHSteps (c : Cfg) : List Kind :=
@@ -253,11 +263,17 @@ def renewSSHSteps : List Kind := [.isRevoked, .casSign, .store]
 /-- `rekeySSH`: `authorizeSSHCertificate`; sign; validators; store. -/
 def rekeySSHSteps : List Kind := [.isRevoked, .casSign, .check, .store]
 
-/-- `Order.Finalize`: `UpdateStatus` (order read back is in the handler; authorizations are
-    read here), fingerprint lookup (authorizations again), `SignWithContext`,
-    `CreateCertificate`, `UpdateOrder`.  `n` = number of authorizations of the order. -/
-def finalizeSteps (n : Nat) (c : Cfg) : List Kind :=
-  List.replicate n .acmeRead ++ List.replicate n .acmeRead ++ [.check] ++ signX509Steps c ++ [.acmeStoreCert, .acmeUpdateOrder]
+/-- `Order.Finalize` on an order that is already `ready` (`UpdateStatus` then makes no call):
+    fingerprint lookup (reads the `n` authorizations), CSR / identifier checks and the
+    provisioner's `AuthorizeSign`, `SignWithContext` (= `signX509`), `CreateCertificate`
+    (certificate, then serial index), `UpdateOrder` (status valid, certificate id). -/
+def finalizePre (n : Nat) : List Kind := List.replicate n .acmeRead ++ [.check]
+/-- `acme/db/nosql` `CreateCertificate`: the certificate, then the serial index. -/
+def createCertificateSteps : List Kind := [.acmeStoreCert, .acmeIndex]
+/-- `acme/db/nosql` `UpdateOrder`: read the stored order, then compare-and-swap. -/
+def updateOrderSteps : List Kind := [.acmeRead, .acmeUpdateOrder]
+def finalizePost : List Kind := createCertificateSteps ++ updateOrderSteps
+def finalizeSteps (n : Nat) (c : Cfg) : List Kind := finalizePre n ++ signX509Steps c ++ finalizePost
 
 def steps : Op → Cfg → List Kind
   | .sign, c => authorizeSteps ++ signX509Steps c
@@ -328,7 +344,8 @@ def Kind.str : Kind → String
   | .useToken => "useToken" | .isRevoked => "isRevoked" | .readCert => "readCert" | .readData => "readData"
   | .enrich => "enrich" | .authorize => "authorize" | .store => "store" | .storeRev => "storeRev"
   | .check => "check" | .casSign => "casSign" | .casRevoke => "casRevoke"
-  | .acmeRead => "acmeRead" | .acmeStoreCert => "acmeStoreCert" | .acmeUpdateOrder => "acmeUpdateOrder"
+  | .acmeRead => "acmeRead" | .acmeStoreCert => "acmeStoreCert" | .acmeIndex => "acmeIndex"
+  | .acmeUpdateOrder => "acmeUpdateOrder"
 
 /-- How the source must treat the error of a call of this kind (compared with the go/ast
     extraction): `!` the error aborts before the success return, `!~` same but
